@@ -20,6 +20,8 @@ from pysym.proxies import SInt, SBool, SBytes, Proxy, lift, chunks_of, cat, lit,
 from spec import msgpack as M
 
 MOD = 'supp.umsgpack'
+import os as _os
+VERIF = _os.path.dirname(_os.path.dirname(_os.path.abspath(__file__)))
 Int = z3.IntSort()
 T_UTF8 = ("str.encode('utf-8') / bytes.decode('utf-8'): mutually inverse on valid data, UnicodeDecodeError exactly "
           "on invalid UTF-8 (uninterpreted utf8/unutf8/valid_utf8)")
@@ -56,7 +58,7 @@ class SStr(Proxy):
 
 class _BytesMeta(type):
     def __instancecheck__(cls, x):
-        return isinstance(x, bytes) or getattr(x, '_pyclass', None) is bytes
+        return isinstance(x, bytes)
 
     def __subclasscheck__(cls, c):
         return issubclass(c, bytes)
@@ -69,7 +71,7 @@ class BytesModel(metaclass=_BytesMeta):
         if enc != 'utf-8':
             raise EngineEscape('decode(%r)' % enc)
         core.RUN.trust(T_UTF8)
-        if isinstance(b, bytes):
+        if type(b) is bytes:
             return b.decode('utf-8')
         ch = P.norm_chunks(b.chunks)
         if len(ch) == 0:
@@ -128,7 +130,7 @@ class StructStub(object):
         core.RUN.trust(T_STRUCT)
         codes = cls._codes(fmt)
         size = sum(8 if c == 'd' else 4 if c == 'f' else FMT[c][0] for c in codes)
-        if isinstance(data, bytes):
+        if type(data) is bytes:
             if len(data) != size:
                 raise _struct.error('model: unpack requires a buffer of %d bytes' % size)
             data = SBytes(chunks_of(data))
@@ -170,7 +172,7 @@ class InStream(Mutable):
 
     def __init__(self, data, pos=0):
         self.data = data
-        self.pos = z3.IntVal(pos) if isinstance(pos, int) else pos
+        self.pos = z3.IntVal(pos) if type(pos) is int else pos
 
     def read(self, n):
         core.RUN.trust(T_IO)
@@ -182,7 +184,7 @@ class InStream(Mutable):
         if core.branch(rem >= nt):
             p = self.pos
             self.pos = z3.simplify(self.pos + nt)
-            if isinstance(n, int) and n <= 16:
+            if type(n) is int and n <= 16:
                 return mk_bytes(tuple(lit(self.data.byte(z3.simplify(p + i))) for i in range(n)))
             return SBytes((self.data.slice(p, nt),))
         # short read: everything that is left (content irrelevant to the callers' contracts)
@@ -279,10 +281,40 @@ print('not reproduced')
 
 
 def _int_replay(model, ob):
-    x = model.get('obj')
-    if x is None:
-        return None
+    x = model.eval(z3.Int('obj'), model_completion=True).as_long()
     return {'input': {'obj': x}, 'script': INT_REPLAY % {'x': x, 'repo': core.REPO}}
+
+
+DEC_REPLAY = '''import sys, io, os
+sys.path.insert(0, %(repo)r); sys.path.insert(0, %(verif)r)
+from supp import umsgpack as u
+from spec.msgpack_ref import *
+inp = bytes.fromhex(%(hex)r)
+def run_ref():
+    try:
+        v, end = ref_unpack(inp); return ('ok', v, end)
+    except RefInsufficient: return ('insufficient',)
+    except RefReserved: return ('reserved',)
+    except RefInvalidUtf8: return ('invalid-utf8',)
+def run_real():
+    fp = io.BytesIO(inp)
+    try:
+        v = u.unpack(fp); return ('ok', v, fp.tell())
+    except u.InsufficientDataException: return ('insufficient',)
+    except u.ReservedCodeException: return ('reserved',)
+    except u.InvalidStringException: return ('invalid-utf8',)
+    except Exception as e: return ('other', type(e).__name__, str(e))
+a, b = run_ref(), run_real()
+agree = a[0] == b[0] and (a[0] != 'ok' or (same(b[1], a[1]) and a[2] == b[2]))
+if not agree:
+    print('REPRODUCED: unpack(%%r): the spec reference gives %%r, supp.umsgpack gives %%r' %% (inp[:64], a, b)); sys.exit(1)
+print('not reproduced: both give %%r' %% (a,))
+'''
+
+
+def dec_replay(inp):
+    return {'input': {'bytes_hex': inp.hex()},
+            'script': DEC_REPLAY % {'hex': inp.hex(), 'repo': core.REPO, 'verif': VERIF}}
 
 
 @harness('C14', 'supp.umsgpack._pack_integer', twins=('spec-off-by-one',))
@@ -349,13 +381,13 @@ def pack_binary(run, twin=None):
 
 @harness('C14', 'supp.umsgpack._pack_ext', twins=('fixext-3',))
 def pack_ext(run, twin=None):
-    """Ext objects as Ext.__init__ admits them (0 <= type <= 127, data bytes)"""
+    """Ext objects as Ext.__init__ admits them (-128 <= type <= 127, data bytes; see harness ext_init)"""
     m = um()
     ty = z3.Int('ty')
     d, n = sym_bytes('extdata')
 
     def mk():
-        assume(z3.And(ty >= 0, ty <= 127, n >= 0))
+        assume(z3.And(ty >= -128, ty <= 127, n >= 0))
         o = m.Ext.__new__(m.Ext)
         o.type = SInt(ty)
         o.data = SBytes((blob(d, n),))
@@ -499,3 +531,635 @@ def pack_array(run, twin=None):
 @harness('C14', 'supp.umsgpack._pack_map', twins=('value-before-key',))
 def pack_map(run, twin=None):
     _container('_pack_map', 'map', lambda: SDictP('obj'), M.hdr_map, 'map-items' if not twin else 'map-items-swapped')
+
+
+# ---------------------------------------------------------------------------
+# unpack side
+
+def exc_kind(m, e):
+    if isinstance(e, m.InsufficientDataException):
+        return M.INSUFFICIENT
+    if isinstance(e, m.ReservedCodeException):
+        return M.RESERVED
+    if isinstance(e, m.InvalidStringException):
+        return M.INVALID_UTF8
+    return 'other:' + type(e).__name__
+
+
+def read_except_contract(fp, n):
+    """contract of _read_except (verified by harness read_except): the next n bytes and
+    advance, or InsufficientDataException when fewer remain"""
+    nt = lift(n)
+    rem = fp.data.total - fp.pos
+    if core.branch(rem >= nt):
+        return fp.read(n)
+    raise um().InsufficientDataException()
+
+
+@harness('C14', 'supp.umsgpack._read_except', twins=('accepts-one-byte-short',))
+def read_except(run, twin=None):
+    """returns exactly the next n bytes and advances by n; raises InsufficientDataException iff fewer remain"""
+    m = um()
+    f = loader.load(MOD, '_read_except', stubs=BASE_STUBS())
+    data = M.Data()
+    p0, n = z3.Int('pos'), z3.Int('n')
+    holder = {}
+
+    def body():
+        assume(z3.And(p0 >= 0, p0 <= data.total, n >= 0))
+        fp = InStream(data, p0)
+        holder['fp'] = fp
+        return f(fp, SInt(n))
+
+    def on_path(p, out):
+        rem = data.total - p0
+        need = n if not twin else n - 1
+        if out[0] == 'ok':
+            prove('enough', rem >= need, clause='returns only when n bytes remain', path=p)
+            eq = beq(out[1], (data.slice(p0, n),))
+            prove('bytes', eq if eq is not None else False, clause='result == data[pos:pos+n]', path=p)
+            prove('advance', holder['fp'].pos == p0 + n, clause='stream position advanced by n', path=p)
+        elif isinstance(out[1], m.InsufficientDataException):
+            prove('short', rem < need, clause='InsufficientDataException iff fewer than n bytes remain', path=p)
+        else:
+            prove('no-other-exception(%s)' % type(out[1]).__name__, False, path=p)
+    core.explore(body, on_path)
+
+
+def match_value(m, res, v, data):
+    """z3 Bool: the Python value `res` is the spec value v"""
+    k = v.kind
+    if k == 'nil':
+        return res is None
+    if k == 'bool':
+        return res is v.b
+    if k == 'int':
+        if type(res) is bool or not (isinstance(res, SInt) or type(res) is int):
+            return False
+        return lift(res) == v.t
+    if k == 'float':
+        if not isinstance(res, SFloat):
+            return False
+        return res.t == (M.f64_of if v.n == 8 else M.f32_of)(v.bits)
+    if k == 'str':
+        pay = P.slice_of(data.id, v.start, v.n)
+        if type(res) is str:
+            return z3.And(v.n == 0) if res == '' else False
+        if not isinstance(res, SStr):
+            return False
+        return res.t == M.unutf8(pay, v.n)
+    if k == 'bin':
+        if not (isinstance(res, SBytes) or type(res) is bytes):
+            return False
+        eq = beq(res, (data.slice(v.start, v.n),))
+        return eq if eq is not None else False
+    if k == 'ext':
+        if not isinstance(res, m.Ext):
+            return False
+        eq = beq(res.data, (data.slice(v.start, v.n),))
+        return z3.And(lift(res.type) == v.ty, eq if eq is not None else False)
+    raise AssertionError(k)
+
+
+def sym_code(fmt):
+    """the first byte: concrete for single-code formats, a constrained BV8 for the fix ranges"""
+    name, lo, hi, fam = fmt
+    if lo == hi:
+        return bytes([lo]), z3.IntVal(lo)
+    c = z3.BitVec('code', 8)
+    assume(z3.And(z3.UGE(c, lo), z3.ULE(c, hi)))
+    return SBytes((lit(c),)), z3.BV2Int(c)
+
+
+def check_decoder(fname, fmts, twin=None, expect_table=True):
+    m = um()
+    f = loader.load(MOD, fname, stubs=dict(BASE_STUBS(), _read_except=read_except_contract))
+    data = M.Data()
+    p0 = z3.Int('pos')
+    for fmt in fmts:
+        holder = {}
+
+        def conc(model, ob):
+            ev = lambda t: model.eval(t, model_completion=True).as_long()
+            c, p, tot = ev(holder['c']), ev(p0), ev(data.total)
+            if tot - p > 1 << 16:
+                return None
+            return dec_replay(bytes([c]) + bytes(ev(z3.BV2Int(data.byte(i))) for i in range(p, tot)))
+        core.RUN.concretise = conc
+
+        def body(fmt=fmt):
+            assume(z3.And(p0 >= 1, p0 <= data.total))
+            code, cint = sym_code(fmt)
+            fp = InStream(data, p0)
+            holder['fp'], holder['c'] = fp, cint
+            return f(code, fp)
+
+        def on_path(p, out, fmt=fmt):
+            lab = fmt[0].replace(' ', '')
+            cases = M.parse_scalar(fmt, holder['c'], data, p0)
+            if twin == 'spec-unsigned-int16' and fmt[0] == 'int 16':
+                cases = M.parse_scalar(('uint 16', 0xd1, 0xd1, 'int'), holder['c'], data, p0)
+            conds = []
+            for i, (cond, outcome) in enumerate(cases):
+                conds.append(cond)
+                if not p.feasible(cond):
+                    continue
+                if outcome[0] == M.OK:
+                    if out[0] == 'ok':
+                        mv = match_value(m, out[1], outcome[1], data)
+                        claim = z3.And(mv, holder['fp'].pos == outcome[2]) if not isinstance(mv, bool) else \
+                            (holder['fp'].pos == outcome[2] if mv else False)
+                    else:
+                        claim = False
+                    cl = 'decodes to the value the spec assigns (%s) and consumes exactly its bytes' % fmt[0]
+                else:
+                    claim = out[0] == 'exc' and exc_kind(m, out[1]) == outcome[0]
+                    cl = 'raises the exception for `%s` exactly when the spec says so' % outcome[0]
+                if isinstance(claim, bool):
+                    claim = z3.BoolVal(claim)
+                prove('%s-case%d%s' % (lab, i, '' if out[0] == 'ok' else '-raises-' + type(out[1]).__name__),
+                      z3.Implies(cond, claim), clause=cl, path=p)
+            prove('%s-cases-exhaustive' % lab, z3.Or(*conds), path=p)
+        core.explore(body, on_path)
+
+
+def fam_formats(fam):
+    return [f for f in M.FORMATS if f[3] == fam]
+
+
+@harness('C14', 'supp.umsgpack._unpack_integer', twins=('spec-unsigned-int16',))
+def unpack_integer(run, twin=None):
+    """all 10 integer formats (non-minimal forms included), every payload, every truncation"""
+    check_decoder('_unpack_integer', fam_formats('int'), twin)
+
+
+@harness('C14', 'supp.umsgpack._unpack_nil')
+def unpack_nil(run):
+    check_decoder('_unpack_nil', fam_formats('nil'))
+
+
+@harness('C14', 'supp.umsgpack._unpack_boolean')
+def unpack_boolean(run):
+    check_decoder('_unpack_boolean', fam_formats('bool'))
+
+
+@harness('C14', 'supp.umsgpack._unpack_reserved')
+def unpack_reserved(run):
+    check_decoder('_unpack_reserved', fam_formats('reserved'))
+
+
+@harness('C14', 'supp.umsgpack._unpack_float')
+def unpack_float(run):
+    check_decoder('_unpack_float', fam_formats('float'))
+
+
+@harness('C14', 'supp.umsgpack._unpack_string')
+def unpack_string(run):
+    if um().compatibility:
+        raise EngineEscape('compatibility mode is on')
+    check_decoder('_unpack_string', fam_formats('str'))
+
+
+@harness('C14', 'supp.umsgpack._unpack_binary')
+def unpack_binary(run):
+    check_decoder('_unpack_binary', fam_formats('bin'))
+
+
+@harness('C14', 'supp.umsgpack._unpack_ext')
+def unpack_ext(run):
+    """ext 8/16/32 and fixext 1..16: signed 8-bit type (negative = predefined types), data bytes"""
+    check_decoder('_unpack_ext', fam_formats('ext'))
+
+
+# ---------------------------------------------------------------------------
+# Ext.__init__ (the data-model side of ext: which (type, data) pairs exist)
+
+@harness('C14', 'supp.umsgpack.Ext.__init__', twins=('type-range-0-127',))
+def ext_init(run, twin=None):
+    """an Ext exists exactly for -128 <= type <= 127 (the spec's signed 8-bit type) and bytes data"""
+    m = um()
+    f = loader.load(MOD, 'Ext.__init__', stubs=BASE_STUBS())
+    ty = z3.Int('ty')
+    d, n = sym_bytes('extdata')
+    holder = {}
+    run.concretise = lambda model, ob: {'input': {'type': model.eval(ty, model_completion=True).as_long()}, 'script': (
+        'import sys; sys.path.insert(0, %r)\nfrom supp import umsgpack as u\nt = %d\n'
+        'try:\n    u.Ext(t, b"x"); ok = True\nexcept TypeError:\n    ok = False\n'
+        'if ok != (-128 <= t <= 127):\n    print("REPRODUCED: Ext(%%d, b\'x\') accepted=%%s; the spec\'s ext type is a signed 8-bit integer" %% (t, ok)); sys.exit(1)\n'
+        'print("not reproduced")\n') % (core.REPO, model.eval(ty, model_completion=True).as_long())}
+
+    def body():
+        assume(n >= 0)
+        o = m.Ext.__new__(m.Ext)
+        holder['o'] = o
+        f(o, SInt(ty), SBytes((blob(d, n),)))
+        return o
+    lo, hi = (-128, 127) if not twin else (0, 127)
+
+    def on_path(p, out):
+        rng = z3.And(ty >= lo, ty <= hi)
+        if out[0] == 'ok':
+            prove('accepted-only-in-range', rng, clause='constructs only for -128 <= type <= 127', path=p)
+            o = holder['o']
+            prove('fields', z3.And(lift(o.type) == ty, beq(o.data, (blob(d, n),))), clause='stores type and data unchanged', path=p)
+        elif isinstance(out[1], TypeError):
+            prove('refused-only-outside', z3.Not(rng), clause='TypeError exactly outside the signed 8-bit range', path=p)
+        else:
+            prove('no-other-exception(%s)' % type(out[1]).__name__, False, path=p)
+    core.explore(body, on_path)
+    for bad in ('x', 1.5, None):
+        def body2(bad=bad):
+            return f(m.Ext.__new__(m.Ext), bad, b'')
+
+        def on2(p, out, bad=bad):
+            prove('non-int-type-%s-refused' % type(bad).__name__, out[0] == 'exc' and isinstance(out[1], TypeError), path=p)
+        core.explore(body2, on2)
+
+
+# ---------------------------------------------------------------------------
+# nested values: the contract of _unpack itself (induction hypothesis) over uninterpreted
+# parse functions of the position:  P_err(p) (0 = ok), P_end(p), the value PVal(p)
+
+P_err = z3.Function('parse_err', Int, Int)     # 0 ok, 1 insufficient, 2 reserved, 3 invalid utf-8, 4 unhashable key, 5 duplicate key
+P_end = z3.Function('parse_end', Int, Int)
+S_end = z3.Function('seq_end', Int, Int, Int)  # S_end(q, j): position after j consecutive values starting at q
+ERRS = {1: 'InsufficientDataException', 2: 'ReservedCodeException', 3: 'InvalidStringException',
+        4: 'UnhashableKeyException', 5: 'DuplicateKeyException'}
+
+
+class PVal(Proxy):
+    """the value a conforming decoder reads at position p (opaque)"""
+
+    def __init__(self, p):
+        self.p = p
+
+
+def err_code(m, e):
+    for c, nm in ERRS.items():
+        if type(e) is getattr(m, nm):
+            return c
+    return None
+
+
+def unpack_hypothesis(fp):
+    """modular call of _unpack(fp): induction hypothesis (decreases: remaining bytes)"""
+    m = um()
+    p = fp.pos
+    for c, nm in ERRS.items():
+        if core.branch(P_err(p) == c):
+            raise getattr(m, nm)('model')
+    assume(P_err(p) == 0)
+    fp.pos = P_end(p)
+    fp.touched()
+    return PVal(p)
+
+
+def seq_axioms(q):
+    j = z3.Int('j')
+    assume(S_end(q, 0) == q)
+    core.axiom(z3.ForAll([j], z3.Implies(j >= 0, S_end(q, j + 1) == P_end(S_end(q, j))), patterns=[S_end(q, j + 1)]))
+
+
+class SRange(Proxy):
+    def __init__(self, n):
+        self.n = n
+
+
+def m_range(*a):
+    if len(a) == 1 and isinstance(a[0], SInt):
+        return SRange(a[0].t)
+    return P.m_range(*a)
+
+
+class ParsedList(Proxy):
+    """[PVal(S_end(q, j)) for j < n]"""
+    _pyclass = list
+
+    def __init__(self, q, n):
+        self.q, self.n = q, n
+
+
+@harness('C14', 'supp.umsgpack._unpack_array', twins=('spec-skips-first-element',))
+def unpack_array(run, twin=None):
+    """header per spec, then n consecutive values read by _unpack (modular); the comprehension is cut
+    with the invariant  pos == S_end(q, k) and no element before k failed"""
+    m = um()
+    data = M.Data()
+    p0 = z3.Int('pos')
+    j = z3.Int('j')
+    holder = {}
+
+    def schema(kind, iterable, elt, conds):
+        if kind != 'list' or conds or not isinstance(iterable, SRange):
+            raise EngineEscape('comprehension changed shape')
+        fp, n = holder['fp'], iterable.n
+        q = fp.pos
+        holder['q'], holder['n'] = q, n
+        seq_axioms(q)
+        noerr = lambda k: z3.ForAll([j], z3.Implies(z3.And(j >= 0, j < k), P_err(S_end(q, j)) == 0))
+        if core.choice(2) == 0:
+            k = core.fresh('k', Int)
+            assume(z3.And(k >= 0, k < n))
+            core.axiom(noerr(k))
+            fp.havoc(None, S_end(q, k))
+            holder['k'] = k
+            v = elt(SInt(k))
+            prove('comp-elem-is-next-value', isinstance(v, PVal) and v.p == S_end(q, k), kind='loop',
+                  clause='element k is the value parsed at S_end(q, k)')
+            prove('comp-inv-preserved', z3.And(fp.pos == S_end(q, k + 1), noerr(k + 1)), kind='loop',
+                  clause='pos == S_end(q, k+1) and no element up to k failed')
+            raise core.PathEnd()
+        core.axiom(noerr(n))
+        fp.havoc(None, S_end(q, n))
+        holder['k'] = None
+        return ParsedList(q, n)
+
+    f = loader.load(MOD, '_unpack_array', stubs=dict(BASE_STUBS(), _read_except=read_except_contract,
+                                                      _unpack=unpack_hypothesis, range=m_range), comps={0: schema})
+    for fmt in fam_formats('array'):
+        def body(fmt=fmt):
+            holder.clear()
+            assume(z3.And(p0 >= 1, p0 <= data.total))
+            code, cint = sym_code(fmt)
+            fp = InStream(data, p0)
+            holder['fp'], holder['c'] = fp, cint
+            return f(code, fp)
+
+        def on_path(p, out, fmt=fmt):
+            lab = fmt[0].replace(' ', '')
+            cases = M.parse_scalar(fmt, holder['c'], data, p0)      # header only
+            for i, (cond, outcome) in enumerate(cases):
+                if not p.feasible(cond):
+                    continue
+                if outcome[0] != M.OK:
+                    prove('%s-header-case%d' % (lab, i), z3.BoolVal(out[0] == 'exc' and exc_kind(m, out[1]) == outcome[0]),
+                          clause='truncated header: insufficient data', path=p)
+                    continue
+                hv, q = outcome[1], outcome[2]
+                if twin:
+                    q = q + 1
+                if 'q' not in holder:
+                    prove('%s-reaches-elements' % lab, False, path=p)
+                    continue
+                prove('%s-header' % lab, z3.Implies(cond, z3.And(holder['q'] == q, holder['n'] == hv.n)),
+                      clause='element count and first element position as the spec\'s header says', path=p)
+                if out[0] == 'ok':
+                    r = out[1]
+                    ok = isinstance(r, ParsedList)
+                    prove('%s-result' % lab, z3.And(r.q == holder['q'], r.n == holder['n']) if ok else False,
+                          clause='returns the list of the n values parsed consecutively', path=p)
+                    prove('%s-end' % lab, holder['fp'].pos == S_end(holder['q'], holder['n']),
+                          clause='consumes exactly the header and n values', path=p)
+                else:
+                    k = holder.get('k')
+                    ec = err_code(m, out[1])
+                    prove('%s-element-error-propagates' % lab,
+                          (P_err(S_end(holder['q'], k)) == ec) if (k is not None and ec) else False,
+                          clause='fails with the error of the first element that fails (earlier ones parsed)', path=p)
+        core.explore(body, on_path)
+
+
+class TableStub(object):
+    """_unpack_dispatch_table[code] with a symbolic code: forks over the 37 format rows of the spec; for each
+    row the REAL table must send every code of the row to one function (ground obligations), and that
+    function's contract must cover the row"""
+
+    def __init__(self, real, contracts):
+        self.real, self.contracts = real, contracts
+
+    def __getitem__(self, code):
+        if not isinstance(code, SBytes) and type(code) is bytes:
+            c = z3.IntVal(code[0])
+        else:
+            c = z3.BV2Int(code.byte_at(0))
+        for fmt in M.FORMATS:
+            name, lo, hi, fam = fmt
+            if core.branch(z3.And(c >= lo, c <= hi)):
+                fns = set()
+                for b in range(lo, hi + 1):
+                    fns.add(self.real.get(bytes([b])))
+                prove('table-row-%s-uniform-and-total' % name.replace(' ', ''), len(fns) == 1 and None not in fns, kind='ground',
+                      clause='every first byte of the row has an entry, all the same decoder')
+                fn = sorted(fns, key=lambda x: getattr(x, '__name__', ''))[-1]
+                stub = self.contracts.get(getattr(fn, '__name__', None))
+                if stub is None:
+                    prove('table-row-%s-decoder-under-contract' % name.replace(' ', ''), False, kind='ground')
+                    raise core.PathEnd()
+                return lambda code, fp, fmt=fmt, stub=stub: stub(fmt, c, code, fp)
+        raise KeyError(code)
+
+
+def value_of(m, v, data):
+    """Python value (proxy) for spec value v"""
+    k = v.kind
+    if k == 'nil':
+        return None
+    if k == 'bool':
+        return v.b
+    if k == 'int':
+        return SInt(v.t)
+    if k == 'float':
+        return SFloat((M.f64_of if v.n == 8 else M.f32_of)(v.bits))
+    if k == 'str':
+        return SStr(M.unutf8(P.slice_of(data.id, v.start, v.n), v.n))
+    if k == 'bin':
+        return SBytes((data.slice(v.start, v.n),))
+    if k == 'ext':
+        o = m.Ext.__new__(m.Ext)
+        o.type, o.data = SInt(v.ty), SBytes((data.slice(v.start, v.n),))
+        return o
+
+
+def decoder_contract(family):
+    """the contract verified above for each _unpack_<family>, as a stub"""
+    def stub(fmt, c, code, fp):
+        m = um()
+        prove('dispatch-pre-%s-handles-%s' % (family, fmt[0].replace(' ', '')), fmt[3] == family, kind='pre',
+              clause='the decoder the table selects is the one whose contract covers this first byte')
+        if fmt[3] != family:
+            raise core.PathEnd()
+        if family in ('array', 'map'):
+            fp.pos = fp.pos - 1
+            return unpack_hypothesis(fp)
+        for cond, outcome in M.parse_scalar(fmt, c, fp.data, fp.pos):
+            if core.branch(cond):
+                if outcome[0] == M.OK:
+                    fp.pos = z3.simplify(outcome[2])
+                    return value_of(m, outcome[1], fp.data)
+                raise {M.INSUFFICIENT: m.InsufficientDataException, M.RESERVED: m.ReservedCodeException,
+                       M.INVALID_UTF8: m.InvalidStringException}[outcome[0]]('model')
+        raise EngineEscape('parse cases not exhaustive')
+    return stub
+
+
+DECODERS = {'_unpack_integer': 'int', '_unpack_nil': 'nil', '_unpack_boolean': 'bool', '_unpack_reserved': 'reserved',
+            '_unpack_float': 'float', '_unpack_string': 'str', '_unpack_binary': 'bin', '_unpack_ext': 'ext',
+            '_unpack_array': 'array', '_unpack_map': 'map'}
+
+
+@harness('C14', 'supp.umsgpack._unpack', twins=('spec-bin8-is-str8',))
+def unpack_dispatch(run, twin=None):
+    """reads one byte and behaves as the spec's parse for the format of that byte: dispatch table total on
+    0x00..0xff, each row sent to the decoder whose (verified) contract covers it"""
+    m = um()
+    contracts = {nm: decoder_contract(fam) for nm, fam in DECODERS.items()}
+    f = loader.load(MOD, '_unpack', stubs=dict(BASE_STUBS(), _read_except=read_except_contract,
+                                                _unpack_dispatch_table=TableStub(m._unpack_dispatch_table, contracts)))
+    prove('table-has-256-entries', len(m._unpack_dispatch_table) == 256 and
+          all(type(k) is bytes and len(k) == 1 for k in m._unpack_dispatch_table), kind='ground', path=core.Path([]))
+    data = M.Data()
+    p0 = z3.Int('pos')
+    holder = {}
+
+    def body():
+        assume(z3.And(p0 >= 0, p0 <= data.total))
+        fp = InStream(data, p0)
+        holder['fp'] = fp
+        return f(fp)
+
+    def on_path(p, out):
+        fp = holder['fp']
+        if not p.feasible(data.total - p0 >= 1):
+            prove('empty-insufficient', z3.BoolVal(out[0] == 'exc' and exc_kind(m, out[1]) == M.INSUFFICIENT),
+                  clause='no first byte: insufficient data', path=p)
+            return
+        c = z3.BV2Int(data.byte(p0))
+        for fmt in M.FORMATS:
+            name, lo, hi, fam = fmt
+            if not p.feasible(z3.And(c >= lo, c <= hi)):
+                continue
+            p.assume(z3.And(c >= lo, c <= hi), check=False)
+            lab = name.replace(' ', '')
+            if fam in ('array', 'map'):
+                if out[0] == 'ok':
+                    prove('%s-nested' % lab, z3.And(isinstance(out[1], PVal) and out[1].p == p0, fp.pos == P_end(p0)), path=p)
+                else:
+                    ec = err_code(m, out[1])
+                    prove('%s-nested-error' % lab, P_err(p0) == ec if ec else False, path=p)
+                continue
+            sfmt = fmt
+            if twin and name == 'bin 8':
+                sfmt = ('str 8', lo, hi, 'str')
+            for i, (cond, outcome) in enumerate(M.parse_scalar(sfmt, c, data, p0 + 1)):
+                if not p.feasible(cond):
+                    continue
+                if outcome[0] == M.OK:
+                    if out[0] == 'ok':
+                        mv = match_value(m, out[1], outcome[1], data)
+                        claim = z3.And(mv, fp.pos == outcome[2]) if not isinstance(mv, bool) else \
+                            (fp.pos == outcome[2] if mv else z3.BoolVal(False))
+                    else:
+                        claim = z3.BoolVal(False)
+                else:
+                    claim = z3.BoolVal(out[0] == 'exc' and exc_kind(m, out[1]) == outcome[0])
+                prove('%s-case%d' % (lab, i), z3.Implies(cond, claim),
+                      clause='_unpack behaves as the spec\'s parse for first byte in %s' % name, path=p)
+    core.explore(body, on_path)
+
+
+# ---------------------------------------------------------------------------
+# top level: _pack3 dispatch, _packb3, _unpackb3
+
+PACKERS = {'_pack_nil': 'nil', '_pack_boolean': 'bool', '_pack_integer': 'int', '_pack_float': 'float',
+           '_pack_string': 'str', '_pack_binary': 'bin', '_pack_array': 'array', '_pack_map': 'map', '_pack_ext': 'ext',
+           '_pack_oldspec_raw': 'oldspec-raw'}
+
+
+@harness('C14', 'supp.umsgpack._pack3', twins=('bool-as-int',))
+def pack3_dispatch(run, twin=None):
+    """every kind of the data model goes to the encoder of its own family (bool before int), exactly once,
+    with the same object and stream; anything else raises UnsupportedTypeException.  requires compatibility == False"""
+    m = um()
+    if m.compatibility:
+        raise EngineEscape('compatibility mode is on')
+    calls = []
+    stubs = dict(BASE_STUBS())
+    for nm, fam in PACKERS.items():
+        stubs[nm] = (lambda fam: lambda obj, fp: calls.append((fam, obj, fp)))(fam)
+    f = loader.load(MOD, '_pack3', stubs=stubs)
+    ext = m.Ext.__new__(m.Ext)
+    ext.type, ext.data = 5, b'x'
+
+    class Other(object):
+        pass
+    kinds = [('nil', None), ('bool', True), ('bool', False), ('int', SInt(z3.Int('obj'))), ('int', 0), ('int', -1),
+             ('float', SFloat(z3.Const('f', M.D))), ('float', 1.5), ('str', SStr(z3.Const('s', M.S))), ('str', ''),
+             ('bin', SBytes((blob(*sym_bytes('b')),))), ('bin', b''), ('array', SListP('l', list)), ('array', SListP('t', tuple)),
+             ('array', []), ('array', ()), ('map', SDictP('d')), ('map', {}), ('ext', ext),
+             (None, Other()), (None, {1, 2}), (None, 1j)]
+    for want, obj in kinds:
+        if twin and want == 'bool':
+            want = 'int'
+        fp = OutStream(PRE)
+
+        def body():
+            del calls[:]
+            return f(obj, fp)
+
+        def on_path(p, out, want=want, obj=obj, fp=fp):
+            lab = 'kind-%s(%s)' % (want, type(obj).__name__)
+            if want is None:
+                prove(lab + '-refused', out[0] == 'exc' and isinstance(out[1], m.UnsupportedTypeException) and not calls,
+                      clause='values outside the data model raise UnsupportedTypeException, nothing is written', path=p)
+            else:
+                prove(lab + '-dispatch', out[0] == 'ok' and len(calls) == 1 and calls[0][0] == want and calls[0][1] is obj
+                      and calls[0][2] is fp, clause='encoded by the encoder of its own family, once, same object and stream', path=p)
+        core.explore(body, on_path)
+
+
+class BytesIOModel(OutStream):
+    def __init__(self, initial=None):
+        OutStream.__init__(self, ())
+        self.initial = initial
+
+    def getvalue(self):
+        return mk_bytes(self.chunks)
+
+
+@harness('C14', 'supp.umsgpack._packb3')
+def packb3(run):
+    """dumps(obj) == the bytes _pack3 writes into a fresh empty stream"""
+    class io_model(object):
+        BytesIO = BytesIOModel
+    marker = (blob(z3.Const('enc_obj', P.BlobSort), z3.Int('enc_obj.len')),)
+    seen = []
+
+    def pack3_contract(obj, fp):
+        seen.append((obj, tuple(fp.chunks)))
+        fp.write(SBytes(marker))
+    f = loader.load(MOD, '_packb3', stubs=dict(BASE_STUBS(), io=io_model, _pack3=pack3_contract))
+    obj = object()
+
+    def on_path(p, out):
+        ok = out[0] == 'ok' and len(seen) == 1 and seen[0][0] is obj and seen[0][1] == ()
+        prove('fresh-stream-one-call', ok, clause='_pack3(obj, fresh empty stream) is called once', path=p)
+        eq = beq(out[1], marker) if out[0] == 'ok' else None
+        prove('returns-written-bytes', eq if eq is not None else False, clause='returns exactly what was written', path=p)
+    core.explore(lambda: f(obj), on_path)
+
+
+@harness('C14', 'supp.umsgpack._unpackb3')
+def unpackb3(run):
+    """loads(s): s must be bytes (TypeError otherwise); result is _unpack on a stream over exactly s from position 0"""
+    seen = []
+
+    class io_model(object):
+        @staticmethod
+        def BytesIO(s):
+            seen.append(s)
+            return ('stream-over', s)
+    f = loader.load(MOD, '_unpackb3', stubs=dict(BASE_STUBS(), io=io_model, _unpack=lambda fp: ('unpacked', fp)))
+    s = SBytes((blob(*sym_bytes('s')),))
+    for arg in (s, b'\x01', 'text', 5, None, bytearray(b'x')):
+        def body(arg=arg):
+            del seen[:]
+            return f(arg)
+
+        def on_path(p, out, arg=arg):
+            if isinstance(arg, SBytes) or type(arg) is bytes:
+                prove('bytes-%s-decoded' % type(arg).__name__, out == ('ok', ('unpacked', ('stream-over', arg))) and len(seen) == 1,
+                      clause='decodes from a stream over exactly the argument', path=p)
+            else:
+                prove('non-bytes-%s-refused' % type(arg).__name__, out[0] == 'exc' and isinstance(out[1], TypeError) and not seen,
+                      clause='TypeError for non-bytes input', path=p)
+        core.explore(body, on_path)
